@@ -129,8 +129,10 @@ theorem refParse_ne_tooLarge (f : Frame) : refParse f ≠ .tooLarge := by
   | n + 10 => simp [refParse]
 
 theorem settingCode_eq (server : Bool) (id val : Nat) : settingCode server id val = refSettingCode server id val := by
+  have hs : C08H2Settings.serverValidatesFirst = true := by decide
+  have hc : C08H2Settings.clientValidatesFirst = true := by decide
   simp only [settingCode, refSettingCode, H2Limits.settingsFrameWindowTooBig, H2Limits.settingInvalidCode,
-    H2Limits.clientWindowTooBig, H2Limits.settingInitialWindowSize, H2Limits.errCodeFlowControl, iLen]
+    H2Limits.clientWindowTooBig, H2Limits.settingInitialWindowSize, H2Limits.errCodeFlowControl, iLen, hs, hc]
   cases server <;> simp <;> split_ifs <;> first | rfl | omega | simp_all
 
 end MosnVerif.Lemmas.H2Limits
